@@ -100,4 +100,18 @@ func init() {
 		Rules: []RuleUse{{Rule: "ALLOC"}, {Rule: "TODO"}, {Rule: "SCOPE"}, {Rule: "PHASE"}, {Rule: "PARENT"}, {Rule: "LK-1"}, {Rule: "LK-2"},
 			{Rule: "CTOR-3"}},
 	})
+	addProperty(&Property{
+		ID:         "C06",
+		Title:      "Result types agree with LLVM's typing rules, in parser and IR alike",
+		Decided:    "vector result types keep the scalability of the vector type their length comes from, on every site in parser, instructions, constant expressions and the gep walk (TYP-1); the parser never caches a result type before the fields it is computed from are set (CACHE-ORDER); every lazily typed value is typed at creation by constructors and parser, which numbering and printing rely on (RACE-3, CTOR-2); getelementptr types come from one shared walk (GEP-WALK).",
+		NotDecided: "that the parser-side and library-side computations denote the same type term for every kind (TYP-AGREE, not built in this revision); that the common computation equals LLVM's rule when both sides are wrong in the same way.",
+		Rules:      []RuleUse{{Rule: "TYP-1"}, {Rule: "CACHE-ORDER"}, {Rule: "RACE-3"}, {Rule: "CTOR-2"}, {Rule: "GEP-WALK"}},
+	})
+	addProperty(&Property{
+		ID:         "C07",
+		Title:      "getelementptr result types are computed correctly and consistently",
+		Decided:    "gep.ResultType is the only producer of gep result types and is fed only by the index-list wrappers (GEP-WALK); every wrapper derives each index's vector length and scalability from the index operand's type for every index form (GEP-VLEN); the three index classifiers classify corresponding constant kinds alike (GEP-SIB) and cover every constant kind the grammar allows or fall back without panicking (EXH on the classifiers); the walk carries scalability with length (TYP-1).",
+		NotDecided: "the walk itself against LLVM (stepping through arrays, vectors and struct fields is one shared function with no sibling to cross-check); agreement of the element classification inside constant index vectors for forms that cannot change the result type.",
+		Rules:      []RuleUse{{Rule: "GEP-WALK"}, {Rule: "GEP-VLEN"}, {Rule: "GEP-SIB"}, {Rule: "TYP-1", Filter: tag("gep"), Floor: 2}, {Rule: "EXH", Filter: tag("gep"), Floor: 50}, {Rule: "ERR", Filter: tag("gep"), Floor: 2}},
+	})
 }
